@@ -14,6 +14,8 @@ THEOREMS = [
     "BSVerif.Scope.objClose_spec",
     "BSVerif.Scope.wfv_arr",
     "BSVerif.Scope.wfv_map",
+    "BSVerif.Props.C03.key_compare_is_integer_equality",
+    "BSVerif.Scope.VarKey.eqKeyNoGuard_refuted",
 ]
 RULE = ("random MsgPack documents (objects with distinct string/int keys; scalar, array and object values, depth <= 3) x request "
         "histories (reverse/shuffled/partial orders, repeated and absent keys, nested open/partial read/close, VisitKeys, sentinel after "
@@ -31,4 +33,30 @@ def nontrivial(op, impl):
 def gen(tier, rng, boost=1):
     ops = gen_scope_ops(tier, rng, boost)
     ops += gen_bs(tier, rng, boost)[: (150 if tier == "quick" else 3000)]
+    ops += keyeq_ops(tier, rng)
+    return ops
+
+
+def keyeq_ops(tier, rng):
+    """CVariableKey::operator== on the real class: stored uint64/int64 alternative x every C++ integer type of the request,
+    at all boundary values (incl. the two's-complement images of each other)"""
+    edge = [0, 1, 5, 127, 128, 255, 256, 32767, 32768, 65535, 65536, 2 ** 31 - 1, 2 ** 31, 2 ** 32 - 1, 2 ** 32, 2 ** 63 - 1, 2 ** 63,
+            2 ** 64 - 1, 2 ** 64 - 128, 2 ** 64 - 2 ** 31, 2 ** 32 - 128, 2 ** 16 - 1, 2 ** 8 - 1, 2 ** 64 - 32768]
+    neg = [-1, -2, -32, -128, -129, -32768, -32769, -2 ** 31, -2 ** 31 - 1, -2 ** 63, -200]
+    ops = []
+    for alt, stored in [("u", v) for v in edge] + [("s", v) for v in neg + [e for e in edge if e < 2 ** 63]]:
+        for bits in (8, 16, 32, 64):
+            cands = set()
+            for v in edge + neg + [stored, stored - 2 ** 64, stored - 2 ** 32, stored + 2 ** 64, stored + 2 ** 32, stored % 2 ** bits,
+                                   stored % 2 ** bits - 2 ** bits]:
+                cands.add(v)
+            for v in sorted(cands):
+                if -2 ** (bits - 1) <= v < 2 ** (bits - 1):
+                    ops.append(f"mp.keyeq {alt} {stored} {bits} s {v}")
+                if 0 <= v < 2 ** bits:
+                    ops.append(f"mp.keyeq {alt} {stored} {bits} u {v}")
+    if tier == "quick":
+        rng.shuffle(ops)
+        eq = [o for o in ops if o.split()[2] == o.split()[5]]
+        ops = eq + ops[:3000]
     return ops
